@@ -196,15 +196,15 @@ Proof.
 Qed.
 
 (* one request: the concrete step is the specification's step *)
-Theorem rp_recv_refines : forall W b12 s a m,
+Lemma rp_recv_req_refines : forall W b12 s a m,
   rp_R s a ->
-  let '(r, s1) := rp_recv rp_fixed W b12 s m in
-  let '(r', a1) := rp_abs_recv W b12 a m in
+  let '(r, s1) := rp_recv_req rp_fixed W b12 s m in
+  let '(r', a1) := rp_abs_recv_req W b12 a m in
   r = r' /\ rp_R s1 a1.
 Proof.
   intros W b12 s a m HR.
   pose proof HR as (Hu & Hi & Hrest).
-  unfold rp_recv, rp_abs_recv.
+  unfold rp_recv_req, rp_abs_recv_req.
   destruct (rp_m_auth m) eqn:Em.
   - (* genuine *)
     destruct (rp_a_armed a) eqn:Ha; cbn [negb] in Hi; rewrite Hi.
@@ -260,6 +260,74 @@ Proof.
       unfold rp_rollback. cbn [rp_v_rbflag rp_fixed]. rewrite Hrb. cbn. exact HR.
   - (* rejected before any recipient context is touched *)
     split; [reflexivity | exact HR].
+Qed.
+
+(* one response with its own Partial IV *)
+Lemma rp_recv_resp_refines : forall W s a m,
+  rp_R s a ->
+  let '(r, s1) := rp_recv_resp rp_fixed W s m in
+  let '(r', a1) := rp_abs_recv_resp W a m in
+  r = r' /\ rp_R s1 a1.
+Proof.
+  intros W s a m HR.
+  pose proof HR as (Hu & Hi & Hrest).
+  unfold rp_recv_resp, rp_abs_recv_resp.
+  cbn [rp_v_resp_nowrite rp_v_resp_rb rp_fixed].
+  destruct (rp_m_auth m) eqn:Em; [| |split; [reflexivity | exact HR]].
+  - (* genuine *)
+    destruct (rp_a_armed a) eqn:Ha; cbn [negb] in Hi; rewrite Hi.
+    + pose proof (rp_validate_armed W s a (rp_m_seq m) HR Ha) as HV.
+      destruct (rp_validate rp_fixed W s (rp_m_seq m)) as [ok s1].
+      destruct HV as (Hok & Hu1 & Hi1 & Hno & Hyes).
+      rewrite <- Hok.
+      destruct ok; cbn [negb].
+      * destruct (Hyes eq_refl) as (HR1 & Hrl & Hrw).
+        assert (rp_m_seq m >=? rp_seq_max = false) as ->.
+        { symmetry in Hok. unfold rp_abs_fresh in Hok. apply andb_prop in Hok. lia. }
+        rewrite Hi1. split; [reflexivity | exact HR1].
+      * destruct (Hno eq_refl) as (Hl1 & Hw1). split; [reflexivity|].
+        unfold rp_R in *. rewrite Ha in *. rewrite Hl1, Hw1, Hu1, Hi1. cbn [negb].
+        destruct Hrest as (Hl & Hb0 & Hbits & Hle). repeat split; auto.
+    + cbn [negb]. unfold rp_abs_fresh. rewrite Ha. rewrite andb_true_r.
+      destruct (rp_m_seq m >=? rp_seq_max) eqn:E.
+      * assert (rp_m_seq m <? rp_seq_max = false) as -> by lia. cbn [negb].
+        split; [reflexivity | exact HR].
+      * assert (rp_m_seq m <? rp_seq_max = true) as -> by lia. cbn [negb].
+        rewrite Hi. split; [reflexivity | exact HR].
+  - (* forged *)
+    destruct (rp_a_armed a) eqn:Ha; cbn [negb] in Hi; rewrite Hi.
+    + pose proof (rp_validate_armed W s a (rp_m_seq m) HR Ha) as HV.
+      destruct (rp_validate rp_fixed W s (rp_m_seq m)) as [ok s1].
+      destruct HV as (Hok & Hu1 & Hi1 & Hno & Hyes).
+      rewrite <- Hok.
+      destruct ok; cbn [negb andb].
+      * destruct (Hyes eq_refl) as (HR1 & Hrl & Hrw).
+        assert (rp_m_seq m >=? rp_seq_max = false) as ->.
+        { symmetry in Hok. unfold rp_abs_fresh in Hok. apply andb_prop in Hok. lia. }
+        split; [reflexivity|].
+        destruct Hrest as (Hl & Hb0 & Hbits & Hle).
+        pose proof (rp_rollback_restores s1 _ _ Hrl Hrw (rp_win_nonzero _ Hb0)) as (R1 & R2 & R3 & R4).
+        unfold rp_R. rewrite Ha, R1, R2, R3, R4, Hu1, Hi1. cbn [negb].
+        repeat split; auto.
+      * destruct (Hno eq_refl) as (Hl1 & Hw1). split; [reflexivity|].
+        unfold rp_R in *. rewrite Ha in *. rewrite Hl1, Hw1, Hu1, Hi1. cbn [negb].
+        destruct Hrest as (Hl & Hb0 & Hbits & Hle). repeat split; auto.
+    + cbn [negb andb]. unfold rp_abs_fresh. rewrite Ha. rewrite andb_true_r.
+      destruct (rp_m_seq m >=? rp_seq_max) eqn:E.
+      * assert (rp_m_seq m <? rp_seq_max = false) as -> by lia. cbn [negb].
+        split; [reflexivity | exact HR].
+      * assert (rp_m_seq m <? rp_seq_max = true) as -> by lia. cbn [negb].
+        split; [reflexivity | exact HR].
+Qed.
+
+Theorem rp_recv_refines : forall W b12 s a m,
+  rp_R s a ->
+  let '(r, s1) := rp_recv rp_fixed W b12 s m in
+  let '(r', a1) := rp_abs_recv W b12 a m in
+  r = r' /\ rp_R s1 a1.
+Proof.
+  intros W b12 s a m HR. unfold rp_recv, rp_abs_recv.
+  destruct (rp_m_kind m); [apply rp_recv_req_refines | apply rp_recv_resp_refines]; exact HR.
 Qed.
 
 (* every history *)
@@ -326,7 +394,14 @@ Lemma rp_abs_recv_cases : forall W b12 a m,
    a1 = rp_abs_accept a (rp_m_seq m)) \/
   (r <> RpAccept /\ a1 = a).
 Proof.
-  intros W b12 a m. unfold rp_abs_recv.
+  intros W b12 a m. unfold rp_abs_recv, rp_abs_recv_req, rp_abs_recv_resp.
+  destruct (rp_m_kind m).
+  2: { destruct (rp_m_auth m) eqn:Em.
+       - destruct (rp_abs_fresh W a (rp_m_seq m)) eqn:Ef; cbn [negb];
+           [|right; split; [discriminate | reflexivity]].
+         destruct (rp_a_armed a); [left; auto | right; split; [discriminate | reflexivity]].
+       - destruct (negb _); right; split; try discriminate; reflexivity.
+       - right; split; [discriminate | reflexivity]. }
   destruct (rp_m_auth m) eqn:Em.
   - destruct (rp_a_armed a).
     + destruct (rp_abs_fresh W a (rp_m_seq m)) eqn:Ef; cbn [negb];
@@ -375,9 +450,11 @@ Lemma rp_abs_recv_forged : forall W b12 a m,
   rp_m_auth m <> RpGenuine ->
   snd (rp_abs_recv W b12 a m) = a /\ fst (rp_abs_recv W b12 a m) <> RpAccept.
 Proof.
-  intros W b12 a m Hf. unfold rp_abs_recv.
-  destruct (rp_m_auth m); [congruence| |];
-    [destruct (rp_a_armed a); [destruct (negb _)|] |]; cbn; split; auto; discriminate.
+  intros W b12 a m Hf. unfold rp_abs_recv, rp_abs_recv_req, rp_abs_recv_resp.
+  destruct (rp_m_kind m).
+  - destruct (rp_m_auth m); [congruence| |];
+      [destruct (rp_a_armed a); [destruct (negb _)|] |]; cbn; split; auto; discriminate.
+  - destruct (rp_m_auth m); [congruence| |]; [destruct (negb _)|]; cbn; split; auto; discriminate.
 Qed.
 
 Lemma rp_abs_filter_genuine : forall W b12 h a,
@@ -428,41 +505,63 @@ Proof.
   apply (rp_abs_run_seen W b12 h rp_abs_init rp_abs_ok_init).
 Qed.
 
+Definition rp_delivered (r : rp_verdict) : bool :=
+  match r with RpAccept | RpAcceptUnchecked => true | _ => false end.
+
 Lemma rp_forged_obs : forall W b12 s a m,
   rp_R s a -> rp_m_auth m = RpForged ->
   rp_obs (snd (rp_recv rp_fixed W b12 s m)) = rp_obs s /\
-  fst (rp_recv rp_fixed W b12 s m) <> RpAccept.
+  rp_delivered (fst (rp_recv rp_fixed W b12 s m)) = false.
 Proof.
   intros W b12 s a m HR Hf.
   pose proof HR as (Hu & Hi & Hrest).
-  unfold rp_recv. rewrite Hf.
-  destruct (rp_a_armed a) eqn:Ha; cbn [negb] in Hi; rewrite Hi.
-  - pose proof (rp_validate_armed W s a (rp_m_seq m) HR Ha) as HV.
-    destruct (rp_validate rp_fixed W s (rp_m_seq m)) as [ok s1].
-    destruct HV as (Hok & Hu1 & Hi1 & Hno & Hyes).
-    destruct ok; cbn [negb fst snd].
-    + destruct (Hyes eq_refl) as (HR1 & Hrl & Hrw).
-      cbn [rp_v_nooverwrite rp_fixed].
-      destruct Hrest as (Hl & Hb0 & Hbits & Hle).
-      pose proof (rp_rollback_restores s1 _ _ Hrl Hrw (rp_win_nonzero _ Hb0)) as (R1 & R2 & R3 & R4).
-      unfold rp_obs. rewrite R1, R2, R3, Hi1, Hi. split; [reflexivity | discriminate].
-    + destruct (Hno eq_refl) as (Hl1 & Hw1). unfold rp_obs. rewrite Hl1, Hw1, Hi1, Hi.
-      split; [reflexivity | discriminate].
-  - cbn [negb fst snd rp_v_nooverwrite rp_fixed].
-    destruct Hrest as [Hrb Hseen].
-    unfold rp_rollback. cbn [rp_v_rbflag rp_fixed]. rewrite Hrb. cbn.
-    split; [reflexivity | discriminate].
+  unfold rp_recv, rp_recv_req, rp_recv_resp. rewrite Hf.
+  cbn [rp_v_resp_nowrite rp_v_resp_rb rp_v_nooverwrite rp_fixed].
+  destruct (rp_m_kind m).
+  - (* request *)
+    destruct (rp_a_armed a) eqn:Ha; cbn [negb] in Hi; rewrite Hi.
+    + pose proof (rp_validate_armed W s a (rp_m_seq m) HR Ha) as HV.
+      destruct (rp_validate rp_fixed W s (rp_m_seq m)) as [ok s1].
+      destruct HV as (Hok & Hu1 & Hi1 & Hno & Hyes).
+      destruct ok; cbn [negb fst snd].
+      * destruct (Hyes eq_refl) as (HR1 & Hrl & Hrw).
+        destruct Hrest as (Hl & Hb0 & Hbits & Hle).
+        pose proof (rp_rollback_restores s1 _ _ Hrl Hrw (rp_win_nonzero _ Hb0)) as (R1 & R2 & R3 & R4).
+        unfold rp_obs. rewrite R1, R2, R3, Hi1, Hi. split; reflexivity.
+      * destruct (Hno eq_refl) as (Hl1 & Hw1). unfold rp_obs. rewrite Hl1, Hw1, Hi1, Hi.
+        split; reflexivity.
+    + cbn [negb fst snd].
+      destruct Hrest as [Hrb Hseen].
+      unfold rp_rollback. cbn [rp_v_rbflag rp_fixed]. rewrite Hrb. cbn.
+      split; reflexivity.
+  - (* response *)
+    destruct (rp_a_armed a) eqn:Ha; cbn [negb] in Hi; rewrite Hi.
+    + pose proof (rp_validate_armed W s a (rp_m_seq m) HR Ha) as HV.
+      destruct (rp_validate rp_fixed W s (rp_m_seq m)) as [ok s1].
+      destruct HV as (Hok & Hu1 & Hi1 & Hno & Hyes).
+      destruct ok; cbn [negb andb fst snd].
+      * destruct (Hyes eq_refl) as (HR1 & Hrl & Hrw).
+        destruct Hrest as (Hl & Hb0 & Hbits & Hle).
+        pose proof (rp_rollback_restores s1 _ _ Hrl Hrw (rp_win_nonzero _ Hb0)) as (R1 & R2 & R3 & R4).
+        assert (rp_m_seq m >=? rp_seq_max = false) as ->.
+        { symmetry in Hok. unfold rp_abs_fresh in Hok. apply andb_prop in Hok. lia. }
+        cbn [fst snd]. unfold rp_obs. rewrite R1, R2, R3, Hi1, Hi. split; reflexivity.
+      * destruct (Hno eq_refl) as (Hl1 & Hw1). unfold rp_obs. rewrite Hl1, Hw1, Hi1, Hi.
+        split; reflexivity.
+    + cbn [negb andb fst snd].
+      destruct (rp_m_seq m >=? rp_seq_max); cbn [fst snd]; split; reflexivity.
 Qed.
 
 (* every message that is not genuine: fails authentication, or is turned away even earlier *)
 Theorem rp_forgery_no_trace : forall W b12 s m,
   rp_reachable W b12 s -> rp_m_auth m <> RpGenuine ->
   rp_obs (snd (rp_recv rp_fixed W b12 s m)) = rp_obs s /\
-  fst (rp_recv rp_fixed W b12 s m) <> RpAccept.
+  rp_delivered (fst (rp_recv rp_fixed W b12 s m)) = false.
 Proof.
   intros W b12 s m Hr Hf. destruct (rp_reachable_R W b12 s Hr) as [a [HR _]].
   destruct (rp_m_auth m) eqn:Em; [congruence | eapply rp_forged_obs; eauto |].
-  unfold rp_recv. rewrite Em. cbn [fst snd]. split; [reflexivity | discriminate].
+  unfold rp_recv, rp_recv_req, rp_recv_resp. rewrite Em.
+  destruct (rp_m_kind m); cbn [fst snd]; split; reflexivity.
 Qed.
 
 Theorem rp_genuine_still_accepted : forall W b12 h,
@@ -509,7 +608,6 @@ Proof.
   destruct (rp_recv rp_fixed W b12 s m) as [r s1]. cbn [fst].
   destruct HR as (_ & Hi & _). rewrite Hini in Hi.
   assert (Ha : rp_a_armed a = true) by (destruct (rp_a_armed a); [reflexivity | discriminate]).
-  unfold rp_abs_recv in Hs. rewrite Ha, Hg in Hs.
   assert (Hf : rp_abs_fresh W a (rp_m_seq m) = true).
   { unfold rp_abs_fresh. rewrite Ha.
     destruct Hok as [_ Hok]. rewrite Ha in Hok. destruct Hok as [Hhi Hle].
@@ -520,7 +618,9 @@ Proof.
       apply andb_true_intro. split.
       + apply Hin in Hhi. apply Hd in Hhi. lia.
       + apply negb_true_iff. apply rp_mem_false. intro Hc. apply Hin in Hc. contradiction. }
-  rewrite Hf in Hs. cbn [negb] in Hs. destruct Hs as [-> _]. reflexivity.
+  unfold rp_abs_recv, rp_abs_recv_req, rp_abs_recv_resp in Hs.
+  destruct (rp_m_kind m); rewrite ?Ha, Hg, Hf in Hs; cbn [negb] in Hs; rewrite ?Ha in Hs;
+    destruct Hs as [-> _]; reflexivity.
 Qed.
 
 (* the model's window word always fits the C type *)
@@ -608,10 +708,10 @@ Proof.
   destruct (rp_validate v W s seq) as [ok s1]. cbn [snd] in H. destruct ok; exact H.
 Qed.
 
-Lemma rp_recv_range : forall v W b12 s m,
-  0 <= rp_m_seq m < 2 ^ 64 -> rp_in_range s -> rp_in_range (snd (rp_recv v W b12 s m)).
+Lemma rp_recv_req_range : forall v W b12 s m,
+  0 <= rp_m_seq m < 2 ^ 64 -> rp_in_range s -> rp_in_range (snd (rp_recv_req v W b12 s m)).
 Proof.
-  intros v W b12 s m Hseq Hr. unfold rp_recv.
+  intros v W b12 s m Hseq Hr. unfold rp_recv_req.
   assert (H1 : rp_in_range (snd (if rp_initial s then (true, s)
                                   else rp_validate v W s (rp_m_seq m)))).
   { destruct (rp_initial s); [exact Hr | apply rp_validate_range; [lia | exact Hr]]. }
@@ -628,6 +728,35 @@ Proof.
     + destruct (rp_m_echo m); [exact H2 | apply rp_arm_range; [lia | exact H2] | exact H2].
     + destruct (rp_v_arm v); [apply rp_arm_range; [lia | exact H2] | exact H2].
   - apply rp_rollback_range. exact H2.
+Qed.
+
+Lemma rp_recv_resp_range : forall v W s m,
+  0 <= rp_m_seq m < 2 ^ 64 -> rp_in_range s -> rp_in_range (snd (rp_recv_resp v W s m)).
+Proof.
+  intros v W s m Hseq Hr. unfold rp_recv_resp.
+  assert (H1 : rp_in_range (snd (if rp_initial s then (true, s)
+                                  else rp_validate v W s (rp_m_seq m)))).
+  { destruct (rp_initial s); [exact Hr | apply rp_validate_range; [lia | exact Hr]]. }
+  destruct (rp_m_auth m) eqn:Em; [| |exact Hr];
+    destruct (if rp_initial s then (true, s) else rp_validate v W s (rp_m_seq m)) as [ok s1];
+    cbn [snd] in H1;
+    (destruct ok; cbn [negb]; [|exact H1]);
+    match goal with |- context [let '(_, _) := ?p in _] =>
+      assert (H2 : rp_in_range (snd p))
+        by (destruct (rp_v_resp_nowrite v); cbn [snd]; [exact H1|];
+            destruct (rp_m_seq m >? rp_last s1); [|exact H1];
+            destruct H1 as (Hw & Hl & Hrw & Hrl); rp_range_fin; repeat split; lia);
+      destruct p as [toobig s2] end;
+    cbn [snd] in H2; (destruct toobig; [exact H1|]); cbn [snd].
+  - destruct (rp_initial s2); exact H2.
+  - destruct (rp_v_resp_rb v && negb (rp_initial s)); [apply rp_rollback_range|]; exact H2.
+Qed.
+
+Lemma rp_recv_range : forall v W b12 s m,
+  0 <= rp_m_seq m < 2 ^ 64 -> rp_in_range s -> rp_in_range (snd (rp_recv v W b12 s m)).
+Proof.
+  intros v W b12 s m Hseq Hr. unfold rp_recv.
+  destruct (rp_m_kind m); [apply rp_recv_req_range | apply rp_recv_resp_range]; assumption.
 Qed.
 
 (* whatever the variant, the model never leaves the value range of the C fields: the
